@@ -22,3 +22,5 @@ def run(rec):
         validate_translator(rec, catalogue.build(netname, sd), desc=catalogue.describe(netname, sd))
     for netname, sd in pairs:
         check_euler_step(rec, netname, sd)
+    from . import C01_py
+    C01_py.run(rec)
